@@ -18,6 +18,9 @@ type profile struct {
 	bigValues                                                bool
 	monotone                                                 bool // managed: commit timestamps non-decreasing
 	deepFirst                                                bool // prefer compacting the deepest non-empty level
+	wBatch                                                   int
+	memSize                                                  int64
+	dupVersions                                              bool // batches may write the same key@version twice
 }
 
 var keySetA = [][]byte{[]byte("a"), []byte("ab"), []byte("abc"), []byte("b"), {'b', 0}, {'b', 0xff}, []byte("c"), {0}, {0xff}, {0xff, 0xff}, []byte("ba"), []byte("a\x00b")}
@@ -40,6 +43,7 @@ func (c *Ctx) value(p *profile) []byte {
 func runHistory(c *Ctx, p *profile) (*hist, error) {
 	o := sysOpts{Managed: p.managed, Detect: p.detect, NKeep: p.nkeeps[c.Rng.Intn(len(p.nkeeps))], MaxLevels: 4,
 		VThreshold: 32, TableSize: int64(256) << uint(c.Rng.Intn(5)), BaseLevelSize: []int64{200, 600, 2 << 10, 8 << 10}[c.Rng.Intn(4)]}
+	o.MemSize = p.memSize
 	h, err := newHist(c, o)
 	if err != nil {
 		return nil, err
@@ -63,7 +67,7 @@ func runHistory(c *Ctx, p *profile) (*hist, error) {
 		}
 		return ids
 	}
-	total := p.wBegin + p.wModify + p.wGet + p.wIter + p.wCommit + p.wDiscard + p.wFlush + p.wCompact + p.wL0L0 + p.wDump + p.wSetDiscard + p.wMaxVersion
+	total := p.wBegin + p.wModify + p.wGet + p.wIter + p.wCommit + p.wDiscard + p.wFlush + p.wCompact + p.wL0L0 + p.wDump + p.wSetDiscard + p.wMaxVersion + p.wBatch
 	for step := 0; step < p.nOps; step++ {
 		r := c.Rng.Intn(total)
 		ids := open()
@@ -201,6 +205,52 @@ func runHistory(c *Ctx, p *profile) (*hist, error) {
 					h.setDiscard(discardTs)
 				}
 			}
+		case r < p.wBegin+p.wModify+p.wGet+p.wIter+p.wCommit+p.wDiscard+p.wFlush+p.wCompact+p.wL0L0+p.wDump+p.wSetDiscard+p.wBatch:
+			n := 1 + c.Rng.Intn(12)
+			kind := 0
+			var bts uint64
+			if p.managed {
+				kind = 1 + c.Rng.Intn(2)
+				if p.detect && discardTs > 0 {
+					// finding F19: NewManagedWriteBatch commits at ts 0 and trips the
+					// `ts >= lastCleanupTs` assertion (process abort) once SetDiscardTs ran with
+					// conflict detection on; exercised only by its witness
+					kind = 1
+				}
+				if p.monotone {
+					mts += 1 + uint64(c.Rng.Intn(2))
+				} else {
+					mts = 1 + uint64(c.Rng.Intn(int(mts)+3))
+				}
+				bts = mts
+			}
+			var calls []batchCall
+			for j := 0; j < n; j++ {
+				cl := batchCall{Key: c.pickKey(p), Val: c.value(p), UMeta: byte(c.Rng.Intn(3)), Del: c.Rng.Intn(5) == 0}
+				if kind == 2 {
+					if p.monotone {
+						cl.Ver = mts + uint64(c.Rng.Intn(3))
+					} else {
+						cl.Ver = 1 + uint64(c.Rng.Intn(int(mts)+3))
+					}
+					if !p.dupVersions {
+						// distinct versions per key inside the batch
+						for _, o := range calls {
+							if string(o.Key) == string(cl.Key) && o.Ver == cl.Ver {
+								cl.Ver = 0
+							}
+						}
+						if cl.Ver == 0 {
+							continue
+						}
+					}
+					if cl.Ver > mts {
+						mts = cl.Ver
+					}
+				}
+				calls = append(calls, cl)
+			}
+			nextT = h.batch(nextT, kind, bts, calls)
 		default:
 			h.maxVersion()
 		}
@@ -235,7 +285,7 @@ func runSysProfile(c *Ctx, mk func(i int) *profile) error {
 			}
 			return err
 		}
-		c.Case(p.name, h.term(), J{"ops": h.desc})
+		c.Case(p.name, h.term(), histInput(h))
 		c.Count(fmt.Sprintf("compactions=%d", min(h.nCompact, 5)))
 		c.Count(fmt.Sprintf("flushes=%d", min(h.nFlush, 5)))
 	}
@@ -257,4 +307,14 @@ func init() {
 				nkeeps: []int{1, 2, 100}, detect: true, bigValues: true}
 		})
 	})
+}
+
+// histInput: the canonical description of a history (hashed for distinctness; a prefix is
+// kept readable for the evidence samples)
+func histInput(h *hist) J {
+	d := h.desc
+	if len(d) > 25 {
+		d = d[:25]
+	}
+	return J{"n_labels": len(h.desc), "first_labels": d, "digest": digest(h.desc)}
 }
